@@ -660,3 +660,219 @@ def targets(tier='quick'):
     from . import c07k
     T.extend(c07k.targets(tier))
     return T
+
+
+# ---- _schedule_nt_correlations itself (2..4 operators, time lists of 1..3 entries, enumerated): the schedule is the product of the
+# earlier operators' times in lexicographic order, every entry paired with the index tuple of the SAME combination
+def sched_targets():
+    import itertools
+    R = Registry()
+
+    @model
+    def m_product(ip, args, kw):
+        return [tuple(c) for c in itertools.product(*[ip.iter_values(a) for a in args])]
+
+    @model
+    def m_arange(ip, args, kw):
+        n = concrete_int(args[0]) if not isinstance(args[0], int) else args[0]
+        return list(range(n))
+    R.lib_models['itertools.product'] = m_product
+    R.lib_models['numpy.arange'] = m_arange
+
+    def scen(lens):
+        def s(ip, repo):
+            ops_times = [[Int('t_%d_%d' % (a, k)) for k in range(n)] for a, n in enumerate(lens)]
+            return {'args': [ops_times], 'ops_times': ops_times, 'lens': lens, 'inputs': {'lengths': list(lens)}}
+        return s
+
+    def post(ip, ctx, out):
+        if not expect_no_other_exception(ip, out):
+            return
+        sched, ind = out.value
+        ot, lens = ctx['ops_times'], ctx['lens']
+        combos = list(itertools.product(*[range(n) for n in lens[:-1]]))
+        ok = isinstance(sched, list) and isinstance(ind, list) and len(sched) == len(combos) == len(ind)
+        why = []
+        if ok:
+            for i, c in enumerate(combos):
+                e, x = sched[i], ind[i]
+                first = list(e[:-1]) if isinstance(e, (tuple, list)) else None
+                if first is None or len(first) != len(c) or any(first[a] is not ot[a][c[a]] for a in range(len(c))):
+                    ok = False
+                    why.append('schedule entry %d is not the combination %s' % (i, c))
+                    break
+                last = e[-1]
+                if not (last is ot[-1] or (isinstance(last, list) and len(last) == len(ot[-1]) and all(p is q for p, q in zip(last, ot[-1])))):
+                    ok = False
+                    why.append('schedule entry %d does not end with the last operator\'s times' % i)
+                    break
+                xi = list(x[:-1]) if isinstance(x, (tuple, list)) else None
+                if xi is None or [concrete_int(v) if not isinstance(v, int) else v for v in xi] != list(c):
+                    ok = False
+                    why.append('index entry %d is %r, not %s' % (i, xi, c))
+                    break
+                li = x[-1]
+                if [concrete_int(v) if not isinstance(v, int) else v for v in ip.iter_values(li)] != list(range(lens[-1])):
+                    ok = False
+                    why.append('index entry %d does not end with all indices of the last operator' % i)
+                    break
+        ip.prove('sched/product-in-order-with-matching-indices', z3.BoolVal(bool(ok)), {'why': why, 'entries': len(sched) if isinstance(sched, list) else None})
+    T = []
+    for nops in (2, 3, 4):
+        for lens in itertools.product((1, 2, 3), repeat=nops):
+            if nops == 4 and max(lens) == 3 and sum(lens) > 8:
+                continue
+            T.append(Target('sched/operators=%d,lengths=%s' % (nops, ''.join(map(str, lens))), 'system_dynamics._schedule_nt_correlations', scen(lens), post, R, PROP,
+                            replay=lambda ob: {'func': 'nt_alignment', 'inputs': {'obligation': ob['name']}}))
+    return T
+
+
+_t_sched = targets
+
+
+def targets(tier='quick'):
+    return _t_sched(tier) + sched_targets()
+
+
+# ---- 3 and 4 operators: the time-ordering filter of ONE schedule entry (the product over entries is sched/*)
+CorrN = {3: z3.Function('Corr3', IntS, IntS, IntS, V), 4: z3.Function('Corr4', IntS, IntS, IntS, IntS, V)}
+TK = [z3.Int('first_step_%d' % k) for k in range(3)]
+
+
+def ntn_registry(nops):
+    R = nt_registry()
+    import itertools
+
+    @model
+    def m_parse_times(ip, args, kw):
+        g = ip.ghost['nt']
+        which = g['parse_calls']
+        g['parse_calls'] += 1
+        ip.prove('call/_parse_times/max_step', veq(args[1], g['N']))
+        ip.prove('call/_parse_times/dt', veq(args[2], g['dt_axes']))
+        ip.prove('call/_parse_times/start_time', veq(args[3], g['t0']))
+        if which < nops - 1:
+            return Seq.from_list([TK[which]], 'ndarray')
+        return Seq(g['Lb'], lambda i: TB(i), 'ndarray')
+
+    @model
+    def m_product(ip, args, kw):
+        return [tuple(c) for c in itertools.product(*[ip.iter_values(a) for a in args])]
+
+    @model
+    def m_arange(ip, args, kw):
+        n = args[0]
+        c = concrete_int(n) if not isinstance(n, int) else n
+        if c is not None:
+            return Seq.from_list(list(range(c)), 'ndarray')
+        return Seq(to_int(n), lambda j: j, 'ndarray')
+
+    @model
+    def m_np_empty(ip, args, kw):
+        return Obj('GridN', {'shape': args[0], 'fill': None, 'writes': []})
+
+    @model
+    def gridn_set(ip, args, kw):
+        o, idx, val = args
+        if isinstance(idx, SliceVal):
+            o.fields['fill'] = NAN if isinstance(val, str) else val
+            return
+        o.fields['writes'].append((idx, val))
+
+    @model
+    def m_ordered(ip, args, kw):
+        g = ip.ghost['nt']
+        ft = list(kw['first_times'])
+        lt = kw['last_times'].copy()
+        g.setdefault('ordered_calls', []).append(kw)
+        ip.prove('nt/dt-governs-dynamics', veq(kw['dt'], g['dt_axes']) if 'dt' in kw else z3.BoolVal(False))
+        ip.prove('nt/start-time-governs-dynamics', veq(kw['start_time'], g['t0']) if 'start_time' in kw else z3.BoolVal(False))
+        f = CorrN[nops]
+        return Seq(lt.length, lambda m: f(*([to_int(x) for x in ft] + [lt.fn(m)])), 'ndarray')
+    R.models['system_dynamics._parse_times'] = m_parse_times
+    del R.models['system_dynamics._schedule_nt_correlations']          # the REAL schedule (one entry here)
+    R.lib_models['itertools.product'] = m_product
+    R.lib_models['numpy.arange'] = m_arange
+    R.lib_models['numpy.empty'] = m_np_empty
+    R.models['GridN.__setitem__'] = gridn_set
+    R.models['system_dynamics._compute_ordered_nt_correlations'] = m_ordered
+    return R
+
+
+def scen_ntn(nops):
+    def scen(ip, repo):
+        N, Lb = Int('N'), Int('Lb')
+        t0, dt_pt = Real('start_time'), Real('dt_pt')
+        ip.assume(z3.And(N >= 0, Lb >= 1, dt_pt > 0))
+        j = Int('jq')
+        ip.assume(z3.ForAll([j], z3.And(TB(j) >= 0, TB(j) <= N)), 'ensures of _parse_times: steps within 0..N')
+        for k in range(nops - 1):
+            ip.assume(z3.And(TK[k] >= 0, TK[k] <= N))
+        pt = Obj('PTm', {'dt': dt_pt, 'N': N, 'hilbert_space_dimension': Int('dim')})
+        sys_ = Obj('Sys', {'dimension': Int('dim')})
+        g = {'N': N, 'La': 1, 'Lb': Lb, 't0': t0, 'dt_pt': dt_pt, 'dt_axes': dt_pt, 'parse_calls': 0}
+        ip.ghost['nt'] = g
+        kwargs = {'system': sys_, 'process_tensor': pt, 'operators': [Vc('op_%d' % k) for k in range(nops)], 'ops_times': [Vc('spec_%d' % k) for k in range(nops)],
+                  'ops_order': ['left'] * nops, 'initial_state': Vc('rho0'), 'start_time': t0, 'dt': None, 'progress_type': 'silent'}
+        return {'args': [], 'kwargs': kwargs, 'g': g, 'nops': nops, 'inputs': {'operators': nops, 'N': N, 'Lb': Lb, 'first_steps': TK[:nops - 1]}}
+    return scen
+
+
+def post_ntn(ip, ctx, out):
+    if out.raised('AssertionError'):
+        return ip.prove('path-accounted', z3.BoolVal(True))
+    if not expect_no_other_exception(ip, out):
+        return
+    g, nops = ctx['g'], ctx['nops']
+    first = TK[:nops - 1]
+    ordered = z3.And([first[k] <= first[k + 1] for k in range(nops - 2)] + [z3.BoolVal(True)])
+    last_of_first = first[-1]
+    ret_times, corr = out.value
+    writes = corr.fields['writes']
+    Lb = g['Lb']
+    j = fresh_int('j')
+    for rec in ip.ghost.get('filters', {}).values():
+        ip.add_pc(rec['facts_j'](j))
+        ip.add_pc(rec['facts_m'](rec['rank'](j)))
+    ip.prove('ntn/everything-else-is-NaN', z3.BoolVal(corr.fields['fill'] is NAN or (is_z3(corr.fields['fill']) and corr.fields['fill'].eq(NAN))), {'fill': repr(corr.fields['fill'])})
+    if not writes:
+        # nothing computed for this combination: it must be outside the requested ordering (no last time at or after the latest earlier time)
+        ip.prove('ntn/skipped-only-outside-the-ordering', z3.Or(z3.Not(ordered), z3.Implies(z3.And(j >= 0, j < Lb), TB(j) < last_of_first)),
+                 {'first steps': [str(x) for x in first]})
+        return
+    ip.prove('ntn/one-write-per-combination', z3.BoolVal(len(writes) == 1))
+    idx, val = writes[0]
+    ip.prove('ntn/computed-only-inside-the-ordering', ordered, {'first steps': [str(x) for x in first]})
+    ok_shape = isinstance(idx, tuple) and len(idx) == nops and all((concrete_int(x) if not isinstance(x, int) else x) == 0 for x in idx[:-1])
+    ip.prove('ntn/written-at-the-combination', z3.BoolVal(bool(ok_shape)), {'index': repr(idx)})
+    if not ok_shape:
+        return
+    from pyvc.lib import as_seq
+    inds, vals = as_seq(idx[-1]), as_seq(val)
+    m = fresh_int('m')
+    for rec in ip.ghost.get('filters', {}).values():
+        ip.add_pc(rec['facts_m'](m))
+    ip.instantiate_universals(inds, m)
+    ip.instantiate_universals(vals, m)
+    for idx_ in (m, inds.fn(m), j):
+        for seq, fact, length in list(ip.universals):
+            ip.add_pc(z3.Implies(z3.And(idx_ >= 0, idx_ < length), to_z3(fact(idx_))))
+    f = CorrN[nops]
+    in_m = z3.And(m >= 0, m < inds.length)
+    ip.prove('ntn/aligned', z3.And(inds.length == vals.length, z3.Implies(in_m, z3.And(
+        inds.fn(m) >= 0, inds.fn(m) < Lb, TB(inds.fn(m)) >= last_of_first, vals.fn(m) == f(*(list(first) + [TB(inds.fn(m))]))))))
+    # every last time at or after the latest earlier time is there (witness: its rank under the mask, or itself when nothing was filtered)
+    recs = list(ip.ghost.get('filters', {}).values())
+    wit = recs[0]['rank'](j) if recs else j
+    ip.prove('ntn/complete', z3.Implies(z3.And(j >= 0, j < Lb, TB(j) >= last_of_first), z3.And(wit >= 0, wit < inds.length, inds.fn(wit) == j)))
+
+
+_t_ntn = targets
+
+
+def targets(tier='quick'):
+    T = _t_ntn(tier)
+    for nops in (3, 4):
+        T.append(Target('ntn/ordering-filter[operators=%d]' % nops, 'system_dynamics.compute_correlations_nt', scen_ntn(nops), post_ntn, ntn_registry(nops), PROP,
+                        replay=lambda ob: {'func': 'nt_ordering_many_operators', 'inputs': {'obligation': ob['name']}}, max_paths=2000))
+    return T
